@@ -14,6 +14,7 @@ children), ops:
   ['trace', now, exp, bs, mode]         cleanup_trace(zk, bs, exp) at time `now` (decimal string)
   ['finished', now, exp, bs, mode]      cleanup_finished(zk, bs, exp)
   ['server', bs, mode]                  cleanup_server_trace(zk, bs)
+  ['pass', now, texp, tbs, fexp, fbs, thist, fhist]   one pass of the real service loop (sproc.trace cleanup) with these options
   ['prune', 't'|'f'|'s', max, mode]     _zk.cleanup via cleanup_*_history(zk, max)
   ['dl', 't'|'s', object]               download_batch(object) from every snapshot
 mode: 'all' = the phase is run from the same state once for EVERY cut point k = 0..W-1 (the write
@@ -28,6 +29,7 @@ the same write prefix.
 """
 import hashlib
 import os
+import random
 import re
 import shutil
 import sqlite3
@@ -206,6 +208,16 @@ def gen_case(rng, pid, tier):
             ops.append(['sched', sched])
     if not any(o[0] == 'trace' for o in ops):
         ops.append(['trace', _decstr(nowms), exp, bsize(), 'all'])
+    # one pass of the archiver service (`treadmill sproc trace cleanup`) with its own options: the two
+    # expiries and batch sizes differ, so an option handed to the wrong function shows (side stream)
+    prng = random.Random(repr(rng.getstate()[1][:4]))
+    if prng.random() < 0.35:
+        texp = prng.choice(EXPIRIES)
+        fexp = prng.choice([e for e in EXPIRIES if e != texp])
+        tbs = prng.randint(1, max(1, min(6, nev // 3)))
+        fbs = prng.choice([b for b in (1, 2, 3, 4) if b != tbs])
+        ops.insert(prng.randrange(len(ops) - 1, len(ops) + 1),
+                   ['pass', _decstr(nowms), texp, tbs, fexp, fbs, prng.choice([1, 2, 5]), prng.choice([1, 3, 6])])
     return {'recover': rng.choice([1, 1, 2, 3, 5]), 'salt': rng.randrange(1000), 'ops': ops}
 
 
@@ -445,15 +457,22 @@ def _monitor(env, dec, zk_after, before, after, phase, site, hits, cut):
 # running the real code
 # ---------------------------------------------------------------------------------------------
 
-def _exec(env, zk, phase):
-    """Run one archiver function on `zk`; -> 'ok' | 'cut' | 'ValueError' | 'runaway'."""
+class _PassDone(Exception):
+    """The service loop reached its sleep (or one of its steps failed): one pass is over."""
+
+
+def _exec(env, zk, phase, call=None):
+    """Run one archiver function on `zk`; -> 'ok' | 'cut' | 'ValueError' | 'runaway'.
+    `call`: the call as the service loop made it (run instead of the one `phase` describes)."""
     kind = phase[0]
     now = float(phase[1]) if kind in ('trace', 'finished') else 0.0
     if kind in ('trace', 'finished'):
         zk.now_ms = int(round(now * 1000))
     try:
         with mock.patch('time.time', lambda: now), mock.patch('time.sleep', lambda _s: None):
-            if kind == 'trace':
+            if call is not None:
+                call()
+            elif kind == 'trace':
                 env.appzk.cleanup_trace(zk, phase[3], phase[2])
             elif kind == 'finished':
                 env.appzk.cleanup_finished(zk, phase[3], phase[2])
@@ -514,7 +533,8 @@ def run_impl(case, pid):
             v = _View(env, state)
             return 4 * (len(v.live) + len(v.fin) + sum(len(x) for x in v.snaps.values())) + 20
 
-        def one_run(state, phase, cut, baseline=None, label=None, transient=False, read_fault=None, full_writes=None):
+        def one_run(state, phase, cut, baseline=None, label=None, transient=False, read_fault=None, full_writes=None,
+                    call=None):
             """Run `phase` on `state` (mutated) with the given cut; record obs + monitor.
             `read_fault`: the read of that index fails once with a transient error instead; to the model this
             is a stop after the writes applied so far."""
@@ -525,7 +545,7 @@ def run_impl(case, pid):
                 state.reads = 0
                 before = _View(env, state)
                 state.arm_read(read_fault)
-            st = _exec(env, state, phase)
+            st = _exec(env, state, phase, call)
             state.read_fault = None
             writes = state.writes
             if read_fault is not None:
@@ -580,6 +600,55 @@ def run_impl(case, pid):
                     cells.append('%s=%s' % (node, '!' if got is None else ('|'.join(got) or '-')))
                 run.op('dl %s %s' % (hk, obj), ';'.join(sorted(cells)) or '-')
                 run.tags.add('download')
+            elif k == 'pass':
+                # the real service loop, one pass: every archiver function it calls is run as called, and
+                # compared with the model / judged by the monitor under the parameters the OPTIONS ask for.
+                # prune_trace_evictions / prune_trace_service_events delete by design (not archiving): off.
+                from treadmill import context
+                from treadmill.sproc import trace as sproc_trace
+                nowstr, texp, tbs, fexp, fbs, thist, fhist = op[1:]
+                intended = [
+                    (env.appzk, 'cleanup_trace', ['trace', nowstr, texp, tbs]),
+                    (env.appzk, 'cleanup_finished', ['finished', nowstr, fexp, fbs]),
+                    (env.appzk, 'cleanup_trace_history', ['prune', 't', thist]),
+                    (env.appzk, 'cleanup_finished_history', ['prune', 'f', fhist]),
+                    (env.srvzk, 'cleanup_server_trace', ['server', tbs]),
+                    (env.srvzk, 'cleanup_server_trace_history', ['prune', 's', thist]),
+                ]
+                cur_zk = zk
+
+                def _wrap(real, phase):
+                    def wrapper(conn, *args):
+                        st, _b, _a = one_run(cur_zk, phase, None, call=lambda: real(conn, *args))
+                        if st != 'ok':
+                            raise _PassDone()
+                    return wrapper
+
+                def _stop(_secs):
+                    raise _PassDone()
+
+                fake_global = mock.Mock()
+                fake_global.zk.conn = zk
+                patches = [mock.patch.object(m, n, _wrap(getattr(m, n), ph)) for m, n, ph in intended]
+                patches += [mock.patch.object(env.appzk, 'prune_trace_evictions', lambda *_a: None),
+                            mock.patch.object(env.appzk, 'prune_trace_service_events', lambda *_a: None),
+                            mock.patch.object(context, 'GLOBAL', fake_global),
+                            mock.patch('time.sleep', _stop)]
+                for p_ in patches:
+                    p_.start()
+                try:
+                    sproc_trace.init().commands['cleanup'].callback(
+                        interval=60, trace_evictions_max_count=10, trace_service_events_max_count=10,
+                        trace_batch_size=tbs, trace_expire_after=texp, trace_history_max_count=thist,
+                        finished_batch_size=fbs, finished_expire_after=fexp, finished_history_max_count=fhist,
+                        no_lock=True)
+                except _PassDone:
+                    pass
+                finally:
+                    for p_ in reversed(patches):
+                        p_.stop()
+                run.tags.add('service-pass')
+                stats['phases'] += 1
             elif k in SITE:
                 phase, mode = op[:-1], op[-1]
                 stats['phases'] += 1
